@@ -445,7 +445,8 @@ class WARCRecorder(object):
         8. g: filename of raw file
         9. u: record ID
         '''
-        with open(self._cdx_filename, mode='a', encoding='utf-8') as out_file:
+        with open(self._cdx_filename, mode='a', encoding='utf-8',
+                  errors='surrogateescape') as out_file:
             out_file.write(self.CDX_DELIMINATOR)
             out_file.write(self.CDX_DELIMINATOR.join((
                 'CDX',
@@ -506,7 +507,8 @@ class WARCRecorder(object):
             record_id
         )
 
-        with open(self._cdx_filename, mode='a', encoding='utf-8') as out_file:
+        with open(self._cdx_filename, mode='a', encoding='utf-8',
+                  errors='surrogateescape') as out_file:
             out_file.write(self.CDX_DELIMINATOR.join(fields_strs))
             out_file.write('\n')
 
